@@ -72,7 +72,13 @@ def judge(o: Outcome, c, ob, origin, model=True):
     case = {"origin": origin, "lib": {k: tr.render_body(v) for k, v in c["lib"].items()}, "page": ob["src"][:400],
             "out": (ob["out"] or "")[:400], "exception": ob["exc"], "wall_s": round(ob["wall"], 2), "messages": ob["msgs"][:5]}
     if ob["exc"] is not None:
-        o.violation(case, f"expand() raised {ob['exc']}", cls="exception")
+        if origin.startswith("nest-") and "-pre-" in origin and "RecursionError" in ob["exc"]:
+            # the as-is design: a call that pre-expansion leaves unexpanded expands its arguments without an entry on the
+            # expansion path, so the depth limit never applies to such nests (proposed_fixes/C05-unexpanded-call-depth.diff)
+            o.classify(case, f"expand(pre_expand=True) raised {ob['exc']} on {origin}: calls left unexpanded do not count towards the depth limit",
+                       [DEV_UNEXPANDED], cls="exception-unexpanded-nesting")
+        else:
+            o.violation(case, f"expand() raised {ob['exc']}", cls="exception")
         return
     if not isinstance(ob["out"], str):
         o.violation(case, "expand() did not return a string", cls="type")
@@ -114,6 +120,17 @@ def nest_pages():
         for _ in range(n):
             s = "{{{u|" + s + "}}}"
         pages.append(("default", n, s))
+    # the same nests under expand(pre_expand=True) with a template that needs no pre-expansion: the calls stay
+    # unexpanded, their arguments are expanded (around and far beyond the depth limit)
+    for n in [2, 50, 99, 100, 101, 200, 500, 1000]:
+        s = "c"
+        for _ in range(n):
+            s = "{{T1|" + s + "}}"
+        pages.append(("tmpl-pre", n, s))
+        s = "c"
+        for _ in range(n):
+            s = "{{T1|x={{#if:1|" + s + "}}}}"
+        pages.append(("named-if-pre", n, s))
     return pages
 
 
@@ -130,7 +147,7 @@ def run_nests(chunk):
                 exc = None
                 out = None
                 try:
-                    out = ctx.expand(src)
+                    out = ctx.expand(src, pre_expand=True) if kind.endswith("-pre") else ctx.expand(src)
                 except Exception as e:  # noqa: BLE001
                     exc = repr(e)
                 res.append({"kind": kind, "n": n, "src": src, "out": out, "nout": ex.norm_out(out) if isinstance(out, str) else None,
@@ -143,6 +160,7 @@ def run_nests(chunk):
 # ---------------------------------------------------------------------------------------
 # nesting ladders
 DEV_NESTING = "NestingOutsideCallsUnbounded"
+DEV_UNEXPANDED = "UnexpandedCallArgsUncounted"
 
 
 class LadderTLC(threading.Thread):
